@@ -373,9 +373,13 @@ func (p *provider) updateStatus(
 
 	modRS.Status.ActiveIn = x.IfThenElse(len(modRS.Status.ActiveIn) == 0, "0/0", modRS.Status.ActiveIn)
 
-	usedBy := strings.Split(modRS.Status.ActiveIn, "/")
-	loadedBy, _ := strconv.Atoi(usedBy[0])
-	matchedBy, _ := strconv.Atoi(usedBy[1])
+	var loadedBy, matchedBy int
+
+	// the value is expected to be <loaded by>/<matched by>. anything else is overwritten
+	if usedBy := strings.Split(modRS.Status.ActiveIn, "/"); len(usedBy) == 2 { //nolint:mnd
+		loadedBy, _ = strconv.Atoi(usedBy[0])
+		matchedBy, _ = strconv.Atoi(usedBy[1])
+	}
 
 	modRS.Status.ActiveIn = fmt.Sprintf("%d/%d", loadedBy+usageIncrement, matchedBy+matchIncrement)
 
@@ -390,10 +394,15 @@ func (p *provider) updateStatus(
 		return
 	}
 
-	// if there is an error, it is always of the below type
+	// errors reported by the api server are of the below type. everything else,
+	// like e.g. the api server being not reachable, cannot be handled here
 	var statusErr *errors2.StatusError
 
-	errors.As(err, &statusErr)
+	if !errors.As(err, &statusErr) {
+		p.l.Warn().Err(err).Msgf("Failed updating RuleSet status")
+
+		return
+	}
 
 	switch statusErr.ErrStatus.Code {
 	case http.StatusNotFound:
